@@ -70,6 +70,9 @@ const (
 	AcctFee  = 9002
 	AcctDAO  = 9003
 	AcctPos  = 9004
+	// recipients whose address is not 20 bytes long (legal: messages only require a non-empty address)
+	AcctLong  = 9011
+	AcctShort = 9012
 )
 
 // Get returns the account with index idx (negative indices are "strangers":
@@ -83,6 +86,17 @@ func (k *Keyring) Get(idx int) *Account {
 		a := k.single(idx, 0, "ed")
 		a.Type = "module"
 		a.Addr = sdk.Address(authTypes.NewModuleAddress(name))
+		k.cache[idx] = a
+		return a
+	}
+	if idx == AcctLong || idx == AcctShort {
+		a := k.single(idx, 0, "ed")
+		a.Type = "odd-address"
+		if idx == AcctLong {
+			a.Addr = sdk.Address(append(append([]byte{}, a.Addr...), []byte("-long-address")...))
+		} else {
+			a.Addr = sdk.Address(append([]byte{}, a.Addr[:4]...))
+		}
 		k.cache[idx] = a
 		return a
 	}
